@@ -70,7 +70,7 @@ def _mk_corpus():
     # reproducers of defects an audit of the unmodified tree found (DESIGN.md section 12): all backends, -promiscuous too
     ad = os.path.join(cd, "audit")
     for fn in sorted(os.listdir(ad)):
-        add("audit/" + fn, {fn: rd(os.path.join(ad, fn))}, fn, fn, ["-D__cplusplus"], ["pf", "ig", "igc", "igo", "ign"])
+        add("audit/" + fn, {fn: rd(os.path.join(ad, fn))}, fn, fn, ["-D__cplusplus"] if not fn.endswith(".c") else [], ["pf", "ig", "igc", "igo", "ign"])
     # generator-made headers an audit's fuzzer found crashes with (Python slot names with odd signatures, property macros naming
     # arbitrary functions, typedef'd arrays and pointers in signatures)
     fz = os.path.join(cd, "fuzz")
